@@ -54,7 +54,7 @@ def translator_stage(ctx: Ctx, grid):
                        f"writes not SetFromArg: {p['bad_writes'][:6]}; unknown constructs: {p['unknown'][:3]}")
         # entry methods (not constructors) may write nothing but dialect slots
         p["other_writes"] = other_writes.get(p["name"], ["<not evaluated>"])
-        if p.get("entry") != "__init__":
+        if not str(p.get("entry", "")).startswith(("__init__", "from_path_or_dict")):
             p["slots_ok"] = not p["other_writes"]
             ctx.obligation(f"writes_only_dialect_slots (program of {p['name']}) = true", p["slots_ok"],
                            f"also writes {p['other_writes'][:6]}")
@@ -70,6 +70,25 @@ def translator_stage(ctx: Ctx, grid):
         ctx.cov["samples"].append({"effect_program": {"name": p0["name"], "written": p0["written"],
                                                       "program": str(p0["program"])[:400]}})
     return allp, pure, bad_writes
+
+
+def grid_completeness(grid):
+    """public concrete creator classes defined in (or exported by) the three libraries that the grid does not cover"""
+    import inspect
+    import splink.internals.blocking_rule_library as brl
+    import splink.internals.comparison_level_library as cll
+    import splink.internals.comparison_library as cl
+    from splink.internals.blocking_rule_creator import BlockingRuleCreator
+    from splink.internals.comparison_creator import ComparisonCreator
+    from splink.internals.comparison_level_creator import ComparisonLevelCreator
+    have = {it["cls"] for it in grid}
+    missing = []
+    for mod, base in ((cll, ComparisonLevelCreator), (cl, ComparisonCreator), (brl, BlockingRuleCreator)):
+        for name, obj in vars(mod).items():
+            if (inspect.isclass(obj) and issubclass(obj, base) and obj is not base and not name.startswith("_")
+                    and not inspect.isabstract(obj) and obj not in have):
+                missing.append(f"{mod.__name__.split('.')[-1]}.{name}")
+    return sorted(set(missing))
 
 
 def run(ctx: Ctx):
@@ -114,6 +133,13 @@ def run(ctx: Ctx):
             c17_x.correspondence(ctx, items, allp, only=(case["entry"], case["sequence"]))
             return
     allp, pure, bad = translator_stage(ctx, grid)
+    missing = grid_completeness(grid)
+    ctx.obligation("every public creator class of the three libraries (and SettingsCreator) is in the argument grid",
+                   not missing, str(missing))
+    ctx.cov["grid_classes"] = len({it["cls"] for it in grid})
+    if missing:
+        ctx.violation(f"creator classes without a grid item (not analysed, not exercised): {missing}",
+                      {"broken": "grid completeness", "missing": missing}, {"grid_incomplete": missing[0]}, found_input=False)
     found = c17_x.correspondence(ctx, grid, allp, baseline=baseline)
     # failed obligations without a concrete failing input from X
     for p in allp:
